@@ -109,6 +109,7 @@ type Ctx struct {
 	markAt   atomic.Int64
 	maxViol  int
 	expired  bool
+	marks    int64
 }
 
 // Thorough reports whether the thorough tier is running.
@@ -238,11 +239,15 @@ func (c *Ctx) Mark(key string) {
 	if c.markFile != nil {
 		c.markFile.WriteAt([]byte(fmt.Sprintf("%-12d%-8d%s\n", c.idx-1, len(key), key)), 0)
 		c.markAt.Store(time.Now().UnixNano())
-		if c.res.Evaluations%2000 == 0 {
+		c.marks++
+		if c.marks%200 == 0 {
 			c.checkpoint()
 		}
 	}
 }
+
+// Checkpoint saves the counters so that a worker that dies on the next cases loses nothing of what it has counted.
+func (c *Ctx) Checkpoint() { c.checkpoint() }
 
 func (c *Ctx) checkpoint() {
 	if c.ckptPath == "" {
